@@ -48,11 +48,17 @@ PROVED (all well-formed stores, all intervals):
     whatever the prices), `geom_accuracy_fails_all_prices_one_witness`, `geom_accuracy_fails_logs_cancel_witness`
     (prices 4 then ¼, equal durations: answer 0, true mean 1 — the difference vanishes although no price is one),
     `geom_accuracy_fails_sub_millisecond_witness`.
-NOT proved here (no theorem): totality of the geometric query on the price range (that no `Dec` range check fires for
-prices in (0, MaxSpotPrice] and accumulators of realistic size); the engine covers it differentially.
+ 6. totality relative to the arithmetic strategy: `geom_exponent_in_exp2_domain` (prices in [0, MaxSpotPrice] ⇒ every
+    recorded logarithm and the truncated mean lie in [−60, 128] ⇒ `Exp2`'s domain [0, 2^9] is never left),
+    `geom_answered_whenever_arith_answered` (an answered arithmetic query over ≥ 1 ms — at most 2^63 ms, Go's int64 — has
+    an answered geometric one with the same flag: the strategies share the endpoint records, `Exp2`, the reciprocal and
+    `SigFigRound` return on that range).
+NOT proved (no theorem): that the ENDPOINT records themselves can be interpolated (no `Dec` range check of the three
+accumulators fires) for histories of realistic length — common to both strategies; the engine covers it differentially.
 -/
 import OsmoVerif.Props.C10
 import OsmoVerif.Proofs.TwapGeomMean
+import OsmoVerif.Proofs.TwapGeomTotal
 
 namespace OsmoVerif.Props.C10Geom
 open OsmoVerif.Twap OsmoVerif.Num OsmoVerif.Spec OsmoVerif.MathM OsmoVerif.Gen
@@ -379,6 +385,79 @@ theorem geom_accuracy_fails_sub_millisecond_witness :
     wsum logW (weights s.hist (canonicalMs 3000000000) (canonicalMs 3000000500)) = 0 ∧
     canonicalMs 3000000000 = canonicalMs 3000000500 := by decide +kernel
 
+/-! ## 6. the geometric strategy returns on the supported price range -/
+
+/-- **geom_exponent_in_exp2_domain**: with the prices carrying weight in `[0, MaxSpotPrice]` the truncated mean
+logarithm lies in `[−60, 128]`, so `Exp2` is only ever called inside its domain `[0, 2^9]` (on `|mean|`; the sign is
+handled by the reciprocal rule). -/
+theorem geom_exponent_in_exp2_domain {s : Store} (wf : WF s) {a b : Int} {ra : TwapRecord} (hab : a ≤ b)
+    (hra : recAtOrBefore s.hist a = some ra) (hpos : 0 < canonicalMs b - canonicalMs a)
+    (hp : ∀ p ∈ weights s.hist (canonicalMs a) (canonicalMs b), 0 < p.2 → PriceOK p.1) :
+    -60 * P18 * (canonicalMs b - canonicalMs a) ≤ wsum logW (weights s.hist (canonicalMs a) (canonicalMs b)) ∧
+    wsum logW (weights s.hist (canonicalMs a) (canonicalMs b)) ≤ 128 * P18 * (canonicalMs b - canonicalMs a) ∧
+    -60 * P18 ≤ (wsum logW (weights s.hist (canonicalMs a) (canonicalMs b))).tdiv (canonicalMs b - canonicalMs a) ∧
+    (wsum logW (weights s.hist (canonicalMs a) (canonicalMs b))).tdiv (canonicalMs b - canonicalMs a) ≤ 128 * P18 ∧
+    (((wsum logW (weights s.hist (canonicalMs a) (canonicalMs b))).tdiv (canonicalMs b - canonicalMs a)).natAbs : Int) * Pdiff
+      ≤ Osmomath.maxSupportedExponent := by
+  obtain ⟨hsum, hnn⟩ := C10.weights_sum_to_interval wf hab hra
+  obtain ⟨l1, l2⟩ := wsum_bounds (sel := logW) (lo := -60 * P18) (hi := 128 * P18) (fun p hp' => (hnn p hp').1)
+    (fun p hp' hpos' => logW_range (hp p hp' hpos'))
+  rw [hsum] at l1 l2
+  obtain ⟨m1, m2⟩ := tdiv_mean_range hpos l1 l2
+  refine ⟨l1, l2, m1, m2, ?_⟩
+  have hP18 : P18 = 10 ^ 18 := by decide
+  have hPd : Pdiff = 10 ^ 18 := by decide
+  have hmax : Osmomath.maxSupportedExponent = 512 * 10 ^ 36 := by decide
+  rw [hP18] at m1 m2
+  rw [hPd, hmax]
+  omega
+
+/-- **geom_answered_whenever_arith_answered**: the two strategies interpolate the SAME endpoint records; whenever the
+arithmetic TWAP of a non-degenerate interval is answered (so the interval spans ≥ 1 ms) — over at most 2^63 ms (Go's
+`int64` milliseconds) and with the prices carrying weight in `[0, MaxSpotPrice]` — the geometric TWAP is answered too,
+with the same error flag: no panic in `Sub`, `QuoInt64`, `Exp2`, `Quo`, `SigFigRound`. -/
+theorem geom_answered_whenever_arith_answered {s : Store} (wf : WF s) {now a b : Int} {q0 : Bool} {res : Int × Bool}
+    (hnow : ∀ r ∈ s.hist, r.time ≤ now) (hne : a ≠ b) (h : getTwap s now a b q0 .arithmetic = .ok res)
+    (hp : ∀ p ∈ weights s.hist (canonicalMs a) (canonicalMs b), 0 < p.2 → PriceOK p.1)
+    (hW : canonicalMs b - canonicalMs a < 2 ^ 63) :
+    ∃ v, getTwap s now a b q0 .geometric = .ok (v, res.2) := by
+  obtain ⟨A, B, he, hc⟩ := endpoints_of_ok h
+  obtain ⟨hab, ra, rb, hra, hrb, hA, hB⟩ := endpoints_ok wf hnow he
+  obtain ⟨a1, _, _, _, _, a6, _⟩ := interp_inherit_fields hA
+  obtain ⟨b1, _, _, _, _, b6, _⟩ := endRecord_fields hB
+  obtain ⟨hpos, _⟩ := C10.arith_twap_is_truncated_weighted_mean wf hnow hne h
+  obtain ⟨l1, l2, m1, m2, _⟩ := geom_exponent_in_exp2_domain wf hab hra hpos hp
+  have e := accDiff_eq_wsum (Chain.geomAcc wf.chain) hab hra hrb
+  rw [← b6, ← a6] at e
+  have htne : B.time - A.time ≠ 0 := by rw [a1, b1]; omega
+  obtain ⟨_, hflag⟩ := computeTwap_value htne hc
+  have hP18 : P18 = 10 ^ 18 := by decide
+  rw [hP18] at l1 l2 m1 m2
+  -- the subtraction fits a Dec
+  have hsub : Dec.sub B.geom A.geom = some (wsum logW (weights s.hist (canonicalMs a) (canonicalMs b))) := by
+    unfold Dec.sub chkDec
+    rw [e]
+    have c3 : (128 * 10 ^ 18 * 2 ^ 63 : Int) ≤ decUpper := by decide +kernel
+    rw [if_pos ⟨by omega, by omega⟩]
+  have hgeo : ∃ v, strategyTwap .geometric A B q0 = some v := by
+    unfold strategyTwap
+    simp only [a1, b1, hsub, Option.bind_some]
+    unfold geomFromDiff
+    by_cases hz : wsum logW (weights s.hist (canonicalMs a) (canonicalMs b)) = 0
+    · exact ⟨0, by rw [if_pos hz]⟩
+    · rw [if_neg hz]
+      unfold Dec.quoInt
+      rw [if_neg (by omega), Option.bind_some]
+      exact geomFinish_total q0 (by rw [hP18]; omega) (by rw [hP18]; exact m2)
+  obtain ⟨v, hv⟩ := hgeo
+  refine ⟨v, ?_⟩
+  rw [getTwap_eq_endpoints, he]
+  simp only [Res.bind]
+  unfold computeTwap
+  simp only
+  rw [if_neg htne, hv, hflag]
+  rfl
+
 /-! ## non-vacuity: a concrete three-record history -/
 
 /-- prices 3, 5, 1/7 recorded at 1 s, 3 s, 6 s; the query `[2 s, 8 s]` gives them the weights 1000, 3000, 2000 ms:
@@ -420,5 +499,19 @@ example :
     decide +kernel
   exact ⟨geom_twap_accuracy wf hnow h0 hS hp, geom_twap_accuracy wf hnow h1 hS hp,
     geom_twap_reciprocal wf hnow h0 h1 hS hp⟩
+
+/-- … and the totality theorem on it: from the answered arithmetic query (quote = asset1: 2.4888…) alone. -/
+example :
+    let s := runOps (create {} 1000000000 1 (3 * P18) (P18 / 3) false)
+      [.update 3000000000 2 (5 * P18) (P18 / 5) false, .update 6000000000 3 (P18 / 7) (7 * P18) false]
+    ∃ v, getTwap s 9000000000 2000000000 8000000000 false .geometric = .ok (v, false) := by
+  intro s
+  have wf : WF s := C10.history_well_formed (by decide) _
+  have hnow : ∀ r ∈ s.hist, r.time ≤ 9000000000 := by decide +kernel
+  have h : getTwap s 9000000000 2000000000 8000000000 false .arithmetic = .ok (2488888888888888888, false) := by
+    decide +kernel
+  have hp : ∀ p ∈ weights s.hist (canonicalMs 2000000000) (canonicalMs 8000000000), 0 < p.2 → PriceOK p.1 := by
+    decide +kernel
+  exact geom_answered_whenever_arith_answered wf hnow (by decide) h hp (by decide)
 
 end OsmoVerif.Props.C10Geom
